@@ -46,24 +46,34 @@ theorem receiver_is_closed_stale_true :
       (opP .R 1 ++ opS (.S 0) 17 ++ acts .R 1)).map (fun s =>
       decide ((s.loc .R).m = .ret (.b true) ∧ s.st = .sent ∧ s.slot = some 1 ∧ s.sres 0 = some .ok)) = some true := by decide
 
-/-- reopen program: two handles are closed, the second closed handle is cloned and the clone sends -/
+/-- reopen program: two handles are closed, the second closed handle is cloned -/
 def reopenS : Nat → List Op
   | 0 => [.clone, .close]
   | 1 => [.close, .clone]
-  | 2 => [.send 5]
   | _ => []
 def reopenSched : List (Ag × Label) :=
   opS (.S 0) 1 ++ opS (.S 1) 2 ++ opP (.S 0) 2 ++          -- s1 = s0.clone(); s1.close(); s0.close() up to the fetch_sub (count 0)
-  opP .R 3 ++                                               -- try_recv: EMPTY, count 0, about to CAS EMPTY→CLOSED
-  opS (.S 1) 1 ++ opS (.S 2) 17 ++                          -- s2 = s1.clone() (a closed handle!); s2.send(5) → Ok
-  acts .R 1 ++ [(.R, .ret)] ++ opS .R 5                     -- the CAS fails, try_recv says Disconnected; the next one gets 5
+  opP .R 2 ++                                               -- try_recv CALLED with EMPTY + count 0 (`q`); it loads EMPTY
+  opS (.S 1) 1 ++                                           -- s2 = s1.clone(): a CLOSED handle is cloned, count 1 again
+  acts .R 1                                                 -- try_recv loads count 1 → Empty
 
-/-- C04 "Disconnected is final" FAILS once a CLOSED sender handle is cloned (the known
-clone-of-closed-handle family): `try_recv` answers `Disconnected` from a stale EMPTY + count 0, the next
-`try_recv` returns the value a resurrected sender sent in between. -/
-theorem C04_fails_disconnected_then_value_after_reopen :
-    (run (init reopenS [.tryRecv, .tryRecv]) reopenSched).map (fun s =>
-      decide (s.results .R = [.disc, .okV 5] ∧ s.reopened = true)) = some true := by decide
+/-- C04 "all senders gone and nothing sent ⇒ Disconnected" needs the hypothesis of
+`senders_gone_recv_disconnected_partial`: once a CLOSED sender handle is cloned (the known
+clone-of-closed-handle family) a `try_recv` that was called with state EMPTY and `sender_count = 0`
+answers `Empty`. (Since fix a886a91 this is all a reopen can do: `Disconnected` itself is final,
+`disconnected_is_final`.) -/
+theorem C04_fails_senders_gone_empty_after_reopen :
+    (run (init reopenS [.tryRecv]) reopenSched).map (fun s =>
+      decide ((s.loc .R).q = true ∧ (s.loc .R).m = .ret .empty ∧ s.reopened = true)) = some true := by decide
+
+/-- the schedule of the defect fixed by a886a91 (no clone involved): `try_recv` loads EMPTY, the whole
+`send(1)` and the drop of the only sender run (SENT, count 0), `try_recv` loads count 0, its CAS
+EMPTY→CLOSED fails — and the FIXED code looks again and returns the value (the old code answered
+`Disconnected` here with the value SENT). -/
+theorem fixed_disconnected_before_drain_returns_value :
+    (run (init (fun i => if i = 0 then [.send 1] else []) [.tryRecv])
+      (opP .R 2 ++ opS (.S 0) 17 ++ acts .R 6 ++ [(.R, .ret)])).map (fun s =>
+      decide (s.results .R = [.okV 1] ∧ s.received = [1] ∧ s.sres 0 = some .ok)) = some true := by decide
 
 /-! ### teardown orders (non-vacuity of `teardown_no_leak`: `freed` is reached with the value in each place) -/
 
